@@ -354,6 +354,7 @@ theorem readFromListener_ok (lid : Lid) (as : List A) (g : G) (hi : Inv g) (hn :
     unfold readFromListener
     cases a <;> (try rfl)
     case eof => exact ih g hi hn
+    case dgramNoKey => exact ih g hi hn
     case dgram k =>
       simp only []
       cases hk : g.index k with
